@@ -908,13 +908,12 @@ func (q *TransferQueue) handleTransferResult(
 			// If the error wasn't retriable, OR the object has
 			// exceeded its retry budget, it will be NOT be sent to
 			// the retry channel, and the error will be reported
-			// immediately (unless the error is in response to a
-			// HTTP 422).
+			// immediately (in response to a HTTP 422, along with
+			// a hint about Content-Type detection).
 			if errors.IsUnprocessableEntityError(res.Error) {
 				q.unsupportedContentType = true
-			} else {
-				q.errorc <- res.Error
 			}
+			q.errorc <- res.Error
 			verifEv("result.fail", oid, 0)
 			q.wait.Done()
 		}
